@@ -16,7 +16,7 @@ From MZ.spec Require Import DeflateSpec.
 From MZ.model Require Import DeflateCore.
 From MZ.lib Require Import Arr.
 From MZ.model Require InflateStream.
-From MZ.proofs Require Import Protocol StoredSpec StoredDeflate InflateStoredStream StoredWrappersEndToEnd.
+From MZ.proofs Require Import Protocol StoredSpec StoredDeflate InflateStoredStream StoredWrappersEndToEnd StoredDeflateTotal.
 Import ListNotations.
 Local Open Scope N_scope.
 
@@ -82,3 +82,12 @@ Theorem C14_level0_deflate_output_inflates_back_partial :
      acc = firstn (length acc) (firstn (N.to_nat n) data) /\
      (In InflateStream.MZ_STREAM_END codes -> acc = firstn (N.to_nat n) data)).
 Proof. split; [exact level0_deflate_then_inflate_finish|exact level0_deflate_then_inflate_calls]. Qed.
+
+(* ... and no call sequence at level 0 panics: for every input and every schedule of deflate() calls (any chunks, any
+   output lengths, flush None / Sync / Full / Finish) the caller's loop over the model never yields a Panic value *)
+Theorem C14_level0_every_deflate_schedule_never_panics_partial :
+  forall (data : list N) (flags wb : N) (sched : list (N * N * N)),
+  hasf flags FLAG_RAW = true -> wb <= 15 ->
+  Forall (fun it => legal_mz_flush (snd it)) sched ->
+  match ddrive (comp_new flags wb) data sched [] 0 with Panic _ => False | _ => True end.
+Proof. exact level0_every_deflate_schedule_never_panics. Qed.
